@@ -120,6 +120,32 @@ def formats(ctx):
                   'writer and reader accept the same formats with the same codec: %s' % wt,
                   'writer table %s differs from reader table %s' % (wt, rt), ctx.where(wb))
     ctx.floor('format strings in to_file', len(ctx.analysed.get('format_tables', {}).get('SerdeAPI::to_file', {})), 4)
+    # writer and reader must also NORMALISE the format string the same way before comparing it with the table (leading dot, case):
+    # a file written as `X.YAML` has to be readable under the same name.  Sibling agreement over every format dispatcher.
+    norms = {}
+    for fid, b in sorted(prog.by_id.items()):
+        if b.test or not re.search(r'(^SerdeAPI|as SerdeAPI>)::(to_file|to_str|from_str|from_reader|from_file|to_writer)$', fid):
+            continue
+        cfg = CFG(b)
+        eqs = [bn for bn, t in cfg.call_sites(lambda c: c.startswith('<str as PartialEq>::eq')) if any(a[0] == 'const' and a[1].startswith('"') for a in t.args)]
+        if len(eqs) < 2:
+            continue
+        pre = set()
+        for bn, t in cfg.call_sites():
+            m = re.search(r'str>?::(trim_start_matches|to_lowercase|to_uppercase|to_ascii_lowercase|to_ascii_uppercase|trim|trim_matches)\b', re.sub(r'::<.*?>', '', t.callee))
+            if m and all(cfg.dominates(bn, e) for e in eqs):
+                pre.add(m.group(1))
+        norms[fid] = (tuple(sorted(pre)), b)
+    ref = norms.get('SerdeAPI::to_file')
+    if ref is None:
+        ctx.unproved('C17-1.formats', 'normalisation', 'SerdeAPI::to_file is not a format dispatcher any more (anchor)')
+    else:
+        for fid, (pre, b) in sorted(norms.items()):
+            if fid == 'SerdeAPI::to_file':
+                continue
+            ctx.check(pre == ref[0], 'C17-1.formats', 'normalisation|%s' % fid, 'the format string is normalised as in to_file before it is compared (%s)' % ', '.join(pre),
+                      'to_file normalises with %s, this dispatcher with %s: a name one accepts the other rejects' % (list(ref[0]), list(pre)), ctx.where(b))
+    ctx.floor('format dispatchers compared', len(norms), 4)
 
 
 def init_paths(ctx):
